@@ -1207,14 +1207,29 @@ def rule_valid_cell(chk):
     """get_valid_cell_index (nnps_base.pxd, used by the linked-list search): a cell is valid only when each of its three indices lies in
     [0, number of cells on that axis) - the range test on the flattened index alone lets an x index one past the end alias into the next row"""
     from verif_static import norm as N
-    rel = 'pysph/base/nnps_base.pxd'
-    t = M.cy(rel)
-    fn = [f for f in ast.walk(t) if isinstance(f, ast.FunctionDef) and f.name == 'get_valid_cell_index']
-    if not fn:
+    # ... and every class's own version of it (BoxSortNNPS looks the flattened index up in its map of occupied cells: an aliased index is the index of a real cell)
+    import glob as _glob
+    targets = [('pysph/base/nnps_base.pxd', f) for f in ast.walk(M.cy('pysph/base/nnps_base.pxd')) if isinstance(f, ast.FunctionDef) and f.name == 'get_valid_cell_index']
+    if not targets:
         raise AnalysisError('get_valid_cell_index vanished from nnps_base.pxd')
-    fn = fn[0]
+    for p_ in sorted(_glob.glob(os.path.join(REPO, 'pysph/base/*_nnps.pyx'))):
+        if 'gpu' in p_:
+            continue
+        r_ = os.path.relpath(p_, REPO)
+        for c_ in M.classes(M.cy(r_)):
+            f_ = M.methods(c_).get('_get_valid_cell_index')
+            if f_ is not None and any(M.call_name(x) == 'flatten_raw' for x in M.calls(f_)):
+                targets.append((r_, f_))
+    for rel, fn in targets:
+        _valid_cell_one(chk, rel, fn)
+    chk.floor('cell-validity functions', len(targets), 2)
+
+
+def _valid_cell_one(chk, rel, fn):
+    from verif_static import norm as N
     M.set_parents(fn)
-    args = M.arg_names(fn)
+    args = [a for a in M.arg_names(fn) if a != 'self']
+    who = M.qualname(fn) if hasattr(M, 'qualname') else fn.name
     defs = {}
     for a in ast.walk(fn):
         if isinstance(a, ast.Assign) and len(a.targets) == 1 and isinstance(a.targets[0], ast.Name):
@@ -1225,7 +1240,7 @@ def rule_valid_cell(chk):
     # the condition under which a flattened index is computed at all
     fl = [c for c in M.calls(fn) if M.call_name(c) == 'flatten_raw']
     if not fl:
-        raise AnalysisError('get_valid_cell_index no longer calls flatten_raw')
+        raise AnalysisError('%s no longer calls flatten_raw' % fn.name)
     conds = []
     gi = M.enclosing(fl[0], (ast.If,))
     while gi is not None:
@@ -1247,7 +1262,7 @@ def rule_valid_cell(chk):
     for k, ax in enumerate(args[:3]):
         lower = any(N.same(l, '%s > -1' % ax, '%s >= 0' % ax) for l in links)
         upper = any(N.same(l, '%s < %s[%d]' % (ax, args[3], k), '%s <= %s[%d] - 1' % (ax, args[3], k)) for l in links)
-        chk.decide(lower and upper, 'stencil-covers-cutoff', 'get_valid_cell_index:%s-in-range' % ax, node=fn, file=rel, func='get_valid_cell_index',
+        chk.decide(lower and upper, 'stencil-covers-cutoff', '%s:%s-in-range' % (who if who != 'get_valid_cell_index' else 'get_valid_cell_index', ax), node=fn, file=rel, func=who,
                    detail_bad='the flattened index is computed without requiring 0 <= %s < %s[%d] (tests found: %s): an index one past either end aliases a cell of the '
                               'neighbouring row, which is then visited twice' % (ax, args[3], k, [compact(l) for l in links]),
                    detail_ok='0 <= %s < %s[%d]' % (ax, args[3], k))
@@ -1280,6 +1295,34 @@ def rule_level_cell_size(chk):
     chk.decide(not writes, 'cell-size-covers-every-array', 'StratifiedHashNNPS:level-maxima-fixed-while-binning', node=writes[0] if writes else loops[0], file=rel, func=who,
                detail_bad='`%s` changes a level\'s maximum h inside the binning loop: particles binned earlier used a smaller cell size than the one queries will assume' % (U(writes[0]) if writes else ''),
                detail_ok='the table of level maxima is read-only while binning')
+
+
+def rule_sized_by_count(chk):
+    """per-array structures whose size or layout is derived from the number of particles (key buffers, the number of key bits that hold the particle id) are derived
+    again on the update path - `_refresh` / `_bin`, which run at every update() - and not only when the object is constructed: arrays grow (add_particles, inlets)"""
+    n = 0
+    for p_ in sorted(glob.glob(os.path.join(REPO, 'pysph/base/*_nnps.pyx'))):
+        if 'gpu' in p_:
+            continue
+        rel = os.path.relpath(p_, REPO)
+        for cls in M.classes(M.cy(rel)):
+            meths = M.methods(cls)
+            sized = {}
+            for mname, fn in meths.items():
+                ld = N.local_defs(fn.body)
+                for a in ast.walk(fn):
+                    if isinstance(a, ast.Assign) and isinstance(a.targets[0], ast.Subscript) and isinstance(a.targets[0].value, ast.Attribute) and compact(a.targets[0].value.value) == 'self':
+                        v = compact(N.inline(a.value, ld))
+                        if 'get_number_of_particles()' in v or 'num_particles' in v:
+                            sized.setdefault(a.targets[0].value.attr, set()).add(mname)
+            for attr, where in sorted(sized.items()):
+                n += 1
+                upd = [m_ for m_ in where if m_ in ('_refresh', '_bin', 'update', '_c_bin', 'fill_array')]
+                chk.decide(bool(upd), 'results-not-stale', '%s.%s:sized-on-the-update-path' % (cls.name, attr), node=cls, file=rel, func=cls.name,
+                           detail_bad='self.%s[...] is derived from the particle count in %s only: after the array has grown the value computed for the old count is still used (e.g. too few '
+                                      'key bits for the particle ids, which then spill into the cell bits)' % (attr, sorted(where)),
+                           detail_ok='recomputed in %s' % sorted(upd))
+    chk.floor('per-array structures sized by the particle count', n, 5)
 
 
 def rule_level_stencil(chk):
@@ -1580,6 +1623,14 @@ def rule_narrowing(chk):
     wide as the key type (ids beyond 2**31 would otherwise be truncated at insertion and alias other cells, while the look-ups use the full id)"""
     rels = [os.path.relpath(p, REPO) for p in sorted(glob.glob(os.path.join(REPO, 'pysph/base/*_nnps.pyx'))) if 'gpu' not in p] + [NB, 'pysph/base/octree.pyx']
     n = 0
+    RET_TYPES = {}
+    for rel_ in [NB, 'pysph/base/nnps_base.pxd']:
+        try:
+            for f_ in ast.walk(M.cy(rel_)):
+                if isinstance(f_, ast.FunctionDef) and getattr(f_, 'cy_rettype', None):
+                    RET_TYPES.setdefault(f_.name, f_.cy_rettype.replace('()', '').strip())
+        except Exception:
+            pass
     for rel in rels:
         t = M.cy(rel)
         for fn in [f for f in ast.walk(t) if isinstance(f, ast.FunctionDef)]:
@@ -1600,6 +1651,13 @@ def rule_narrowing(chk):
                 if isinstance(a, ast.Assign) and isinstance(a.targets[0], ast.Attribute) and a.targets[0].attr == 'first' and isinstance(a.targets[0].value, ast.Name) \
                         and a.targets[0].value.id in keyw and isinstance(a.value, ast.Name):
                     uses.append((a.targets[0].value.id, a.value.id, a))
+                if isinstance(a, ast.Assign) and isinstance(a.targets[0], ast.Attribute) and a.targets[0].attr == 'first' and isinstance(a.targets[0].value, ast.Name) \
+                        and a.targets[0].value.id in keyw and isinstance(a.value, ast.Call) and isinstance(a.value.func, ast.Name):
+                    # the key comes straight out of a helper: its declared return type is the width that counts
+                    rt = RET_TYPES.get(a.value.func.id)
+                    if rt is not None and WIDTH.get(ctype(rt)) is not None:
+                        decl['<%s()>' % a.value.func.id] = (WIDTH[ctype(rt)], rt)
+                        uses.append((a.targets[0].value.id, '<%s()>' % a.value.func.id, a))
                 if isinstance(a, ast.Subscript) and isinstance(a.value, ast.Name) and a.value.id in keyw and isinstance(a.slice, ast.Name):
                     uses.append((a.value.id, a.slice.id, a))
                 if isinstance(a, ast.Call) and isinstance(a.func, ast.Attribute) and a.func.attr in ('find', 'count', 'erase') and isinstance(a.func.value, ast.Name) \
@@ -1793,6 +1851,7 @@ def main(chk):
     rule_coindexed(chk)
     rule_cell_size(chk)
     rule_cell_counts(chk)
+    rule_sized_by_count(chk)
     rule_level_stencil(chk)
     rule_no_pruning(chk, ci, concrete)
     rule_octree(chk)
